@@ -58,6 +58,9 @@ CHECKS = {
     "C16": ("property-based testing with fault injection: CFG-level faults of 12 kinds injected into parse-clean generated programs",
             "Generated-input search: undefined/duplicate labels must be named at an occurrence; every other error that stops the analysis must be specific, attached to a user file and located. Exploration.",
             "Label definitions/uses are computed from the model, locations through the renderer's source map.", "5/C16"),
+    "C19": ("property-based testing: round-trip and injectivity over dumps of real analyses and over generated single-fact mutations (all value variants, extreme offsets), own structural comparison",
+            "Generated-input search: dump -> load -> field-by-field comparison with the live graph; generated facts of every variant replaced in the loaded structure, dumped, reloaded and compared; twin structures (same place and payload, different variant) must have different dumps. Exploration.",
+            "Facts are replaced through the public NodeWrapper type (a CfgWrapper is a transparent sequence of them).", "5/C19"),
     "C17": ("property-based testing + exhaustive boundary enumeration against an own literal evaluator",
             "Boundaries of the 32-bit range +-2 (and 2^32..2^65) are enumerated over all notations, spellings and 11 operand sites; random 32-bit values, out-of-range magnitudes and malformed spellings are sampled. Exploration with an exhaustive boundary table.",
             "Trusts the harness's literal evaluator (spellings are built from known mathematical values).", "5/C17"),
